@@ -76,7 +76,7 @@ def generate(run_seed, tier):
             k2 = rw.randint(1, max(1, eff_out - 1))
             spec["subset2"] = sorted(rw.sample(range(eff_out), k2))
     if k1 == "int_dup" and on_kind != "index" and rw.random() < 0.6:
-        spec["twin_key_in_index"] = rw.random() < 0.3 and on_kind != "cols"
+        spec["twin_key_in_index"] = rw.random() < 0.3 and on_kind != "cols" and not spec["ignore_index"]
         spec["twin"] = {"method": rw.choice(["tasks", "disk"]), "max_branch": rw.choice([2, 3, 4, 8, 32, None]),
                         "n_in": rw.choice([1, 2, 3, 5, 8]), "dtype": rw.choice(["float64", "int32", "float32"])}
     spec["worlds"] = [S.World.draw(rs).to_json() for _ in range(2 if tier == "quick" else 4)]
